@@ -128,6 +128,24 @@ func run(sc kit.Scenario, out *kit.Out) error {
 				}
 				ev["shared"] = s
 				cmp(ev, t, x, y)
+			case "cmpk":
+				// x and y share exactly k leading bits; the target lies inside the shared prefix
+				// (then its bit k is random), anywhere, or on x itself
+				k, tgt := kit.Int(op, "k"), kit.Str(op, "tgt")
+				x := randBytes(r, 32)
+				y := differAt(r, x, k)
+				t := randBytes(r, 32)
+				switch tgt {
+				case "in":
+					full := k / 8
+					copy(t[:full], x[:full])
+					keep := byte(0xff) << uint(8-k%8)
+					t[full] = (x[full] & keep) | (t[full] &^ keep)
+				case "x":
+					copy(t, x)
+				}
+				ev["k"], ev["tgt"] = k, tgt
+				cmp(ev, t, x, y)
 			default:
 				perr = "unknown op " + name
 			}
